@@ -11,9 +11,12 @@
  *
  * stdin : one scenario per line
  *           scn <seed> <pert 0..3> <batch> <batch> ...
- *           batch = <t 1..4><W|N><n|0|S|T><0|1>:<hex digits, one host index per item>
+ *           batch = <t 1..4><W|N><n|0|S|T><0|1>:<hex digits, one host index per item>[+<n|0|T><hex digits>]
  *                   (thread, GAI_WAIT/GAI_NOWAIT, sevp NULL / SIGEV_NONE / SIGNAL / THREAD,
- *                    wait for completion before the thread's next call)
+ *                    wait for completion before the thread's next call;
+ *                    "+…" (GAI_NOWAIT + SIGEV_THREAD only): the callback itself submits a
+ *                    follow-up GAI_NOWAIT batch — chained look-ups, the thread running the
+ *                    callback is a submitting thread like any other; logged as thread 5)
  * stdout: "trace <the scenario line>", event lines, "end"   (or "crash ..." before "end")
  * Every scenario runs in a forked child (the context of netdb.c is a process-wide static, so
  * lazy creation is exercised every time; a crash or hang is a result, not the end of the run).
@@ -107,12 +110,16 @@ static void ai_str(const struct addrinfo *ai, char *out, size_t cap)
 }
 
 /* ------------------------------------------------------------------ scenario */
-#define MAXT 5
+#define MAXT 6
+#define NSUB 4          /* real submitter threads 1..4 */
+#define CHAIN_T 5       /* pseudo submitter: the resolver thread calling getaddrinfo_a from a callback */
 #define MAXSEQ 12
 #define MAXN 16
 #define STALE 7777
 #define FENCE_SEQ 99
 
+struct Batch;
+static void submit(struct Batch *b);
 struct Batch {
 	int t, seq, bid, n, mode, sev, waitnow;
 	int host[MAXN];
@@ -122,6 +129,7 @@ struct Batch {
 	sem_t sem;
 	int signo;
 	volatile int done_seen;
+	struct Batch *chain;       /* follow-up batch submitted by this batch's callback */
 };
 static struct Batch batches[MAXT][MAXSEQ + 1];   /* [t][MAXSEQ] = the TSan fence batch */
 static int nbatch[MAXT];
@@ -353,7 +361,7 @@ void __wrap_free(void *p)
 static int find_item(struct addrinfo **res, int *bid, int *k)
 {
 	int t, q, i;
-	for (t = 1; t <= nthreads; t++)
+	for (t = 1; t < MAXT; t++)
 		for (q = 0; q <= MAXSEQ; q++) {
 			struct Batch *b = &batches[t][q];
 			if (q < MAXSEQ && q >= nbatch[t]) continue;
@@ -384,6 +392,13 @@ static void cb_thread(union sigval v)
 	in_cb++;
 	if (b) {
 		logsnap(E_NOTIFY, b, 0, 0);
+		if (b->chain) {
+			/* chained look-up: this thread now is a caller of getaddrinfo_a */
+			int idx = my_idx, cb = in_cb;
+			my_idx = CHAIN_T; in_cb = 0;
+			submit(b->chain);
+			my_idx = idx; in_cb = cb;
+		}
 		sem_post(&b->sem);
 	} else
 		logev(E_NOTE, 1, v.sival_int, 0, 0);
@@ -589,6 +604,15 @@ static void *submitter(void *arg)
 		if (b->done_seen) finals(b);
 #endif
 	}
+	/* follow-up batches submitted by the callbacks of this thread's batches */
+	for (q = 0; q < nbatch[t] && !timed_out; q++) {
+		struct Batch *c = batches[t][q].chain;
+		if (!c || !batches[t][q].done_seen) continue;
+		await(c);
+#ifndef C20_TSAN
+		if (c->done_seen) finals(c);
+#endif
+	}
 #ifdef C20_TSAN
 	/* Under TSan results are read after a fence request whose callback (run by the resolver
 	 * thread, after all earlier requests of this thread: the queue is FIFO) posts a semaphore:
@@ -604,6 +628,8 @@ static void *submitter(void *arg)
 		}
 		for (q = 0; q < nbatch[t] && !timed_out; q++)
 			if (batches[t][q].done_seen) finals(&batches[t][q]);
+		for (q = 0; q < nbatch[t] && !timed_out; q++)
+			if (batches[t][q].chain && batches[t][q].chain->done_seen) finals(batches[t][q].chain);
 		if (any && f->done_seen) finals(f);
 	}
 #endif
@@ -631,9 +657,11 @@ static int parse_scn(char *line)
 		const char *s = w[i];
 		struct Batch *b;
 		size_t L = strlen(s), k;
+		const char *plus = strchr(s, '+');
+		if (plus) L = (size_t)(plus - s);
 		if (L < 6 || s[4] != ':') return 0;
 		t = s[0] - '0';
-		if (t < 1 || t >= MAXT) return 0;
+		if (t < 1 || t > NSUB) return 0;
 		if (nbatch[t] >= MAXSEQ) return 0;
 		if (s[1] != 'W' && s[1] != 'N') return 0;
 		if (!strchr("n0ST", s[2])) return 0;
@@ -654,6 +682,28 @@ static int parse_scn(char *line)
 		sem_init(&b->sem, 0, 0);
 		nbatch[t]++;
 		if (t > nthreads) nthreads = t;
+		if (plus) {
+			struct Batch *c;
+			size_t CL = strlen(plus + 1);
+			if (b->mode != 'N' || b->sev != 'T') return 0;
+			if (CL < 2 || CL - 1 > MAXN || !strchr("n0T", plus[1])) return 0;
+			if (nbatch[CHAIN_T] >= MAXSEQ) return 0;
+			c = &batches[CHAIN_T][nbatch[CHAIN_T]];
+			memset(c, 0, sizeof *c);
+			c->t = CHAIN_T; c->seq = nbatch[CHAIN_T]; c->bid = CHAIN_T * 100 + c->seq;
+			c->mode = 'N'; c->sev = plus[1]; c->waitnow = 0;
+			c->n = (int)(CL - 1);
+			for (k = 0; k < CL - 1; k++) {
+				int ch = plus[2 + k];
+				int v = (ch >= '0' && ch <= '9') ? ch - '0' : (ch >= 'a' && ch <= 'f') ? ch - 'a' + 10 : -1;
+				if (v < 0 || v >= NHOST) return 0;
+				c->host[k] = v;
+			}
+			c->signo = SIGRTMIN + 1;
+			sem_init(&c->sem, 0, 0);
+			nbatch[CHAIN_T]++;
+			b->chain = c;
+		}
 	}
 	for (t = 1; t < MAXT; t++) {
 		struct Batch *f = &batches[t][MAXSEQ];
@@ -764,8 +814,10 @@ static void run_child(void)
 			if (pthread_timedjoin_np(th[t], NULL, &ts) != 0) ST(timed_out_, 1);
 	}
 	for (t = 1; t <= nthreads; t++)
-		for (q = 0; q < nbatch[t]; q++)
+		for (q = 0; q < nbatch[t]; q++) {
 			if (batches[t][q].mode == 'N') nowait++;
+			if (batches[t][q].chain) nowait++;
+		}
 #ifdef C20_TSAN
 	for (t = 1; t <= nthreads; t++) {
 		int any = 0;
